@@ -1,19 +1,27 @@
 (** C16 — Rolling appender: a write lands in its period's file; only the oldest are pruned.
     Statements only; proofs live in Appender/Rolling*Proofs.v.  Model: Appender/RollingModel.v
-    (tied to tracing-appender/src/rolling.rs by translators/rolling.py + Appender/RollingTie.v and by
-    the correspondence run of driver/props/c16.py).
+    (tied to tracing-appender/src/rolling.rs and rolling/builder.rs by translators/rolling.py +
+    Appender/RollingTie.v and by the correspondence run of driver/props/c16.py).
 
-    Reading guide.  [run_x c s0 ws] is the exclusive interface (io::Write::write on &mut self) fed the list
-    [ws] of (clock reading, buffer); [run c s0 evs] is the shared interface (MakeWriter::make_writer from any
-    number of threads) under the schedule [evs] of micro-steps — quantifying over [evs] is quantifying over
-    every interleaving and every thread count.  [s0 = init c pre tick0 t0]: the appender built at clock [t0]
-    in a directory already holding [pre].  Clock readings are unix seconds with 0 <= t < 2^62 ([TBOUND]; the
-    code casts to usize).  [stored_in s n]: every buffer appended to the files called [n], in append order
-    (pruned incarnations first).  [period_file c t0 t]: the name [join_date] gives the period containing [t]
-    (the single file made at construction for Rotation::NEVER).  Flags of a landing [l]: [l_nd l] — its clock
-    reading is not behind an earlier one; [l_clean l] — no other thread was between winning the
-    compare_exchange and finishing refresh_writer at any moment of the call (it "overlaps no rotation"). *)
-From Coq Require Import ZArith NArith List String Bool Sorted.
+    Reading guide.  An appender LIFETIME starts with [restart c sp t0]: Builder::build at clock [t0] with
+    configuration [c] over whatever state [sp] earlier lifetimes left behind ([GoodFS sp]: unique names and
+    creation stamps, every earlier buffer accounted for).  [blank pre tick0] is a directory holding [pre] that no
+    appender has written to yet; [init c pre tick0 t0 = restart c (blank pre tick0) t0].  The directory may hold
+    anything: files of earlier periods, of the current period, more than the limit, foreign files.
+    [run_x c s0 ws] is the exclusive interface (io::Write::write on &mut self) fed the list [ws] of (clock reading,
+    buffer); [run c s0 evs] is the shared interface (MakeWriter::make_writer from any number of threads) under the
+    schedule [evs] of micro-steps — quantifying over [evs] is quantifying over every interleaving and every
+    thread count.  [run_lives s ls]: several lifetimes one after the other.
+    Clock readings: unix seconds with 0 <= t < TBOUND = 9999-12-31T00:00:00Z — from the epoch (the code casts to
+    usize) to the last day of the [time] crate's range, where next_date stops being defined for some rotation
+    (the theorems [C16_next_date_*], [C16_out_of_range_*] say exactly where, and what happens beyond: a panic
+    before anything is touched).
+    [stored_in s n]: every buffer appended to the files called [n], in append order (pruned incarnations first).
+    [period_file c t0 t]: the name [join_date] gives the period containing [t] (the single file made at
+    construction for Rotation::NEVER).  A landing [l] carries: [l_life l] — the lifetime it happened in;
+    [l_nd l] — its clock reading is not behind an earlier one of that lifetime; [l_clean l] — no other thread was
+    between winning the compare_exchange and finishing refresh_writer at any moment of the call. *)
+From Coq Require Import ZArith NArith List String Bool Sorted Permutation.
 From TVGen Require Import Gen_rolling.
 From TV Require Import Appender.RollingModel Appender.RollingTie Appender.RollingTimeProofs Appender.RollingNameProofs.
 From TV Require Import Appender.RollingDirProofs Appender.RollingFsProofs Appender.RollingConcProofs Appender.RollingSeqProofs.
@@ -21,7 +29,7 @@ From TV Require Import Appender.RollingMainProofs Appender.RollingExamples.
 Import ListNotations.
 Local Open Scope Z_scope.
 
-(** * Periods and names *)
+(** * Periods, the range of the clock, names *)
 
 (** Every instant lies in exactly one period [round, round + P), periods start at multiples of P
     (minute / hour / day in UTC), and next_date is the start of the following period. *)
@@ -32,82 +40,160 @@ Theorem C16_period : forall k t, k <> Never ->
 Proof. exact period_spec. Qed.
 Print Assumptions C16_period.
 
+(** Where Rotation::next_date is defined ([current + Duration] is a checked_add().expect() in the time crate, whose
+    range ends at DT_MAX = 9999-12-31T23:59:59Z): exactly up to DT_MAX - period; never an issue for NEVER ... *)
+Theorem C16_next_date_defined_iff : forall k t, next_ok k t = true <-> k = Never \/ t + dur k <= DT_MAX.
+Proof. exact next_ok_iff. Qed.
+Print Assumptions C16_next_date_defined_iff.
+
+(** ... in particular for every rotation below the bound used throughout. *)
+Theorem C16_next_date_defined_below_bound : forall k t, t < TBOUND -> next_ok k t = true.
+Proof. exact next_ok_small. Qed.
+Print Assumptions C16_next_date_defined_below_bound.
+
+(** Beyond it: Builder::build panics inside next_date before the directory is touched (no appender) ...
+    Non-vacuity: RollingExamples.out_of_range_example. *)
+Theorem C16_out_of_range_constructor : forall c sp t, next_ok (rot c) t = false ->
+  restart c sp t = bump_panics sp /\ dir (restart c sp t) = dir sp.
+Proof. exact restart_out_of_range. Qed.
+Print Assumptions C16_out_of_range_constructor.
+
+(** ... a write that finds a rotation due panics inside advance_date (before the compare_exchange): nothing is
+    written, created, removed or advanced ... *)
+Theorem C16_out_of_range_write : forall c s t b n, should_rollover s t = Some n -> next_ok (rot c) t = false ->
+  write_x c s t b = bump_panics s.
+Proof. exact x_write_out_of_range. Qed.
+Print Assumptions C16_out_of_range_write.
+
+(** ... and so does a make_writer call at its compare_exchange step: the call ends, no lock is held. *)
+Theorem C16_out_of_range_make_writer : forall c s i t b n g, pcs s i = Some (PCas t b n g) -> next_ok (rot c) t = false ->
+  step c s (Step i) = with_pcs (bump_panics s) (upd (pcs s) i None).
+Proof. exact shared_cas_out_of_range. Qed.
+Print Assumptions C16_out_of_range_make_writer.
+
 (** A file name is constant inside a period ... *)
 Theorem C16_name_constant_in_period : forall c t t', rot c <> Never ->
   round_date (rot c) t = round_date (rot c) t' -> join_date c t = join_date c t'.
 Proof. exact name_same_period. Qed.
 Print Assumptions C16_name_constant_in_period.
 
-(** ... and injective on periods, for every prefix/suffix combination (up to 9999-12-31T23:59:59Z, where
-    [year] has four digits; month/year ends and leap days are inside the quantifier) *)
+(** ... injective on periods, for every prefix/suffix combination (up to 9999-12-31T23:59:59Z, where
+    [year] has four digits; month/year ends and leap days are inside the quantifier) ... *)
 Theorem C16_name_injective_on_periods : forall c t t', rot c <> Never -> 0 <= t < TCAL -> 0 <= t' < TCAL ->
   join_date c t = join_date c t' -> round_date (rot c) t = round_date (rot c) t'.
 Proof. exact name_injective. Qed.
 Print Assumptions C16_name_injective_on_periods.
 
+(** ... and always one of the names pruning considers the appender's own (prefix / suffix test, or a parsable date
+    when neither is configured). *)
+Theorem C16_own_file_matches : forall c t, 0 <= t < TCAL -> matches c (join_date c t) = true.
+Proof. exact join_date_matches. Qed.
+Print Assumptions C16_own_file_matches.
+
+(** * Restart: an appender built over a non-empty directory *)
+
+(** Construction removes, renames, truncates and re-stamps nothing (no pruning there, whatever the limit); the only
+    entry that can be new is an EMPTY file for the construction time's period, made only when no file of that name
+    exists — an existing one is opened for append; the ghosts of earlier lifetimes carry over; the lifetime
+    counter advances.  Non-vacuity: RollingExamples.restart_appends_example, above_limit_example. *)
+Theorem C16_restart_keeps_files : forall c sp t0, 0 <= t0 < TBOUND ->
+  (forall f, In f (dir sp) -> In f (dir (restart c sp t0))) /\
+  (forall f, In f (dir (restart c sp t0)) -> In f (dir sp) \/
+     (in_dir (join_date c t0) (dir sp) = false /\
+      f = {| fname := join_date c t0; created := tick sp; base := []; landed := [] |})) /\
+  cur (restart c sp t0) = join_date c t0 /\ in_dir (join_date c t0) (dir (restart c sp t0)) = true /\
+  next (restart c sp t0) = next_usize (rot c) t0 /\ grave (restart c sp t0) = grave sp /\
+  lands (restart c sp t0) = lands sp /\ refreshed (restart c sp t0) = false /\ life (restart c sp t0) = S (life sp).
+Proof. exact restart_keeps_files. Qed.
+Print Assumptions C16_restart_keeps_files.
+
+(** A directory no appender of the model has written to yet is a fit starting point, and [init] is [restart] over it. *)
+Theorem C16_fresh_directory : forall pre tick0, PreOK pre tick0 -> GoodFS (blank pre tick0).
+Proof. exact GoodFS_blank. Qed.
+Print Assumptions C16_fresh_directory.
+
+Theorem C16_init_is_restart : forall c pre tick0 t0, init c pre tick0 t0 = restart c (blank pre tick0) t0.
+Proof. exact init_is_restart. Qed.
+Print Assumptions C16_init_is_restart.
+
 (** * Exclusive interface *)
 
-(** HEADLINE.  Non-decreasing clock readings: the files called [n] hold exactly the buffers whose write
-    time lies in the period [n] is named for — each once, whole, in write order.
+(** HEADLINE.  One lifetime over whatever was there, non-decreasing clock readings: the files called [n] gain exactly
+    the buffers whose write time lies in the period [n] is named for — each once, whole, in write order, after what
+    earlier lifetimes had appended under that name.
     Non-vacuity: RollingExamples.contents_example, leap_day_example. *)
-Theorem C16_lands_in_period : forall c pre tick0 t0, 0 <= t0 < TBOUND -> PreOK pre tick0 ->
+Theorem C16_lands_in_period : forall c sp t0, 0 <= t0 < TBOUND -> GoodFS sp ->
   forall ws, Forall valid_w ws -> StronglySorted Z.le (t0 :: map fst ws) ->
-  forall n, stored_in (run_x c (init c pre tick0 t0) ws) n = belongs c t0 n ws.
+  forall n, stored_in (run_x c (restart c sp t0) ws) n = stored_in sp n ++ belongs c t0 n ws.
 Proof. exact x_contents_by_period. Qed.
 Print Assumptions C16_lands_in_period.
 
-(** Any clock readings (backward steps included): the landings are the writes, in order, each flagged with
-    "not behind an earlier reading"; every buffer is stored exactly once, whole, in order per file; the
-    flagged ones are in their period's file; the current file exists.
-    Non-vacuity: RollingExamples.any_clock_example. *)
-Theorem C16_lands_in_period_any_clock : forall c pre tick0 t0, 0 <= t0 < TBOUND -> PreOK pre tick0 ->
+(** HEADLINE ACROSS RESTARTS.  Any number of lifetimes — each with its own configuration (also another limit,
+    another naming) and its own non-decreasing clock, which may be behind the previous lifetime's —: the files called
+    [n] hold, in order, what each lifetime's writes of [n]'s period contributed, and the result is again fit for a
+    further appender.  Non-vacuity: RollingExamples.restart_example. *)
+Theorem C16_lands_in_period_across_restarts : forall ls s, GoodFS s -> Forall life_ok ls ->
+  GoodFS (run_lives s ls) /\
+  forall n, stored_in (run_lives s ls) n =
+            stored_in s n ++ flat_map (fun l : lifetime => let '(c, t0, ws) := l in belongs c t0 n ws) ls.
+Proof. exact lives_contents. Qed.
+Print Assumptions C16_lands_in_period_across_restarts.
+
+(** Any clock readings (backward steps included): the new landings are this lifetime's writes, in order, each
+    tagged with the lifetime and flagged with "not behind an earlier reading"; the flagged ones are in their
+    period's file; every buffer is stored exactly once, whole, in order per file; the current file exists; what is
+    left is fit for the next appender.  Non-vacuity: RollingExamples.any_clock_example. *)
+Theorem C16_lands_in_period_any_clock : forall c sp t0, 0 <= t0 < TBOUND -> GoodFS sp ->
   forall ws, Forall valid_w ws ->
-  map (fun l => (l_t l, l_buf l, l_nd l)) (rev (lands (run_x c (init c pre tick0 t0) ws))) = annotate t0 ws /\
-  (forall n, stored_in (run_x c (init c pre tick0 t0) ws) n = landed_in n (lands (run_x c (init c pre tick0 t0) ws))) /\
-  (forall l, In l (lands (run_x c (init c pre tick0 t0) ws)) -> l_nd l = true -> l_file l = period_file c t0 (l_t l)) /\
-  in_dir (cur (run_x c (init c pre tick0 t0) ws)) (dir (run_x c (init c pre tick0 t0) ws)) = true.
+  (exists new, lands (run_x c (restart c sp t0) ws) = new ++ lands sp /\
+               map (fun l => (l_t l, l_buf l, l_nd l)) (rev new) = annotate t0 ws /\
+               (forall l, In l new -> l_life l = S (life sp) /\ (l_nd l = true -> l_file l = period_file c t0 (l_t l)))) /\
+  (forall n, stored_in (run_x c (restart c sp t0) ws) n = landed_in n (lands (run_x c (restart c sp t0) ws))) /\
+  in_dir (cur (run_x c (restart c sp t0) ws)) (dir (run_x c (restart c sp t0) ws)) = true /\
+  GoodFS (run_x c (restart c sp t0) ws).
 Proof. exact x_contents_any_clock. Qed.
 Print Assumptions C16_lands_in_period_any_clock.
 
 (** A reading at or past next_date rotates once: the write goes to its own period's file and next_date
-    moves past the reading.  Non-vacuity: RollingExamples.backwards_example (first write). *)
-Theorem C16_rotation_at_boundary_exclusive : forall c pre tick0 t0, 0 <= t0 < TBOUND -> PreOK pre tick0 ->
+    moves past the reading (the period after the READING's, however many periods were skipped).
+    Non-vacuity: RollingExamples.backwards_example (first write). *)
+Theorem C16_rotation_at_boundary_exclusive : forall c sp t0, 0 <= t0 < TBOUND -> GoodFS sp ->
   forall ws t b, Forall valid_w ws -> 0 <= t < TBOUND ->
-  next (run_x c (init c pre tick0 t0) ws) <> 0 -> next (run_x c (init c pre tick0 t0) ws) <= t ->
-  cur (write_x c (run_x c (init c pre tick0 t0) ws) t b) = join_date c t /\
-  next (write_x c (run_x c (init c pre tick0 t0) ws) t b) = next_usize (rot c) t /\
-  t < next (write_x c (run_x c (init c pre tick0 t0) ws) t b) /\
-  refreshed (write_x c (run_x c (init c pre tick0 t0) ws) t b) = true.
+  next (run_x c (restart c sp t0) ws) <> 0 -> next (run_x c (restart c sp t0) ws) <= t ->
+  cur (write_x c (run_x c (restart c sp t0) ws) t b) = join_date c t /\
+  next (write_x c (run_x c (restart c sp t0) ws) t b) = next_usize (rot c) t /\
+  t < next (write_x c (run_x c (restart c sp t0) ws) t b) /\
+  refreshed (write_x c (run_x c (restart c sp t0) ws) t b) = true.
 Proof. exact x_rotation_at_boundary. Qed.
 Print Assumptions C16_rotation_at_boundary_exclusive.
 
-(** Time standing still or stepping back (by any amount, behind ANY earlier reading: [maxstart] is their
-    maximum, next theorem) never rotates: no rollover, same file, same next_date, same directory names.
+(** Time standing still or stepping back (by any amount, behind ANY earlier reading of the lifetime: [maxstart] is
+    their maximum, next theorem) never rotates: no rollover, same file, same next_date, same directory names.
     Non-vacuity: RollingExamples.backwards_example. *)
-Theorem C16_no_rotation_backwards : forall c pre tick0 t0, 0 <= t0 < TBOUND -> PreOK pre tick0 ->
+Theorem C16_no_rotation_backwards : forall c sp t0, 0 <= t0 < TBOUND -> GoodFS sp ->
   forall ws t b, Forall valid_w ws -> 0 <= t < TBOUND ->
-  t <= maxstart (run_x c (init c pre tick0 t0) ws) ->
-  should_rollover (run_x c (init c pre tick0 t0) ws) t = None /\
-  cur (write_x c (run_x c (init c pre tick0 t0) ws) t b) = cur (run_x c (init c pre tick0 t0) ws) /\
-  next (write_x c (run_x c (init c pre tick0 t0) ws) t b) = next (run_x c (init c pre tick0 t0) ws) /\
-  map fname (dir (write_x c (run_x c (init c pre tick0 t0) ws) t b)) = map fname (dir (run_x c (init c pre tick0 t0) ws)).
+  t <= maxstart (run_x c (restart c sp t0) ws) ->
+  should_rollover (run_x c (restart c sp t0) ws) t = None /\
+  cur (write_x c (run_x c (restart c sp t0) ws) t b) = cur (run_x c (restart c sp t0) ws) /\
+  next (write_x c (run_x c (restart c sp t0) ws) t b) = next (run_x c (restart c sp t0) ws) /\
+  map fname (dir (write_x c (run_x c (restart c sp t0) ws) t b)) = map fname (dir (run_x c (restart c sp t0) ws)).
 Proof. exact x_no_rotation_backwards. Qed.
 Print Assumptions C16_no_rotation_backwards.
 
-Theorem C16_maxstart_is_the_latest_reading : forall c pre tick0 t0, 0 <= t0 < TBOUND ->
-  forall ws, Forall valid_w ws -> forall u, In u (t0 :: map fst ws) -> u <= maxstart (run_x c (init c pre tick0 t0) ws).
+Theorem C16_maxstart_is_the_latest_reading : forall c sp t0, 0 <= t0 < TBOUND ->
+  forall ws, Forall valid_w ws -> forall u, In u (t0 :: map fst ws) -> u <= maxstart (run_x c (restart c sp t0) ws).
 Proof. exact x_maxstart_is_max. Qed.
 Print Assumptions C16_maxstart_is_the_latest_reading.
 
 (** * Shared interface: every schedule, any number of threads *)
 
 (** HEADLINE for the code as it is now (make_writer re-checks next_date under the write lock —
-    [C16_source_parameters] below ties [recheck] to the source): on EVERY schedule a call that overlaps no
-    other thread's rotation and whose reading is not behind an earlier one lands in its period's file.
+    [C16_source_parameters] below ties [recheck] to the source): on EVERY schedule a call of this lifetime that
+    overlaps no other thread's rotation and whose reading is not behind an earlier one lands in its period's file.
     No hypothesis about how rotations interleave.  Non-vacuity: RollingExamples.overlap_with_recheck. *)
-Theorem C16_lands_in_period_shared : forall c pre tick0 t0, 0 <= t0 < TBOUND -> recheck c = true ->
+Theorem C16_lands_in_period_shared : forall c sp t0, 0 <= t0 < TBOUND -> GoodFS sp -> recheck c = true ->
   forall evs, Forall valid_ev evs ->
-  forall l, In l (lands (run c (init c pre tick0 t0) evs)) -> l_clean l = true -> l_nd l = true ->
+  forall l, In l (lands (run c (restart c sp t0) evs)) -> l_life l = S (life sp) -> l_clean l = true -> l_nd l = true ->
     l_file l = period_file c t0 (l_t l).
 Proof. exact shared_lands_in_period_recheck. Qed.
 Print Assumptions C16_lands_in_period_shared.
@@ -115,9 +201,9 @@ Print Assumptions C16_lands_in_period_shared.
 (** The code before the repair of finding F16 (no re-check): the same conclusion only for schedules in which
     no compare_exchange is won while another winner has not refreshed yet ...
     Non-vacuity: RollingExamples.no_overlap_without_recheck. *)
-Theorem C16_lands_in_period_shared_without_recheck : forall c pre tick0 t0, 0 <= t0 < TBOUND ->
-  forall evs, Forall valid_ev evs -> overlapped (run c (init c pre tick0 t0) evs) = false ->
-  forall l, In l (lands (run c (init c pre tick0 t0) evs)) -> l_clean l = true -> l_nd l = true ->
+Theorem C16_lands_in_period_shared_without_recheck : forall c sp t0, 0 <= t0 < TBOUND -> GoodFS sp ->
+  forall evs, Forall valid_ev evs -> overlapped (run c (restart c sp t0) evs) = false ->
+  forall l, In l (lands (run c (restart c sp t0) evs)) -> l_life l = S (life sp) -> l_clean l = true -> l_nd l = true ->
     l_file l = period_file c t0 (l_t l).
 Proof. exact shared_lands_in_period_norecheck. Qed.
 Print Assumptions C16_lands_in_period_shared_without_recheck.
@@ -128,26 +214,27 @@ Print Assumptions C16_lands_in_period_shared_without_recheck.
 Theorem C16_overlap_refuted_without_recheck :
   exists c pre tick0 t0 evs,
     recheck c = false /\ 0 <= t0 < TBOUND /\ PreOK pre tick0 /\ Forall valid_ev evs /\
-    exists l, In l (lands (run c (init c pre tick0 t0) evs)) /\ l_clean l = true /\ l_nd l = true /\
+    exists l, In l (lands (run c (init c pre tick0 t0) evs)) /\ l_life l = 1%nat /\ l_clean l = true /\ l_nd l = true /\
               l_file l <> period_file c t0 (l_t l).
 Proof. exact overlap_refuted. Qed.
 Print Assumptions C16_overlap_refuted_without_recheck.
 
 (** Never lost — every schedule, with or without the re-check (so also the calls that DO overlap a rotation):
     every buffer appended is stored exactly once, whole, in landing order per file name; per thread, the calls
-    it completed followed by the one it is inside are exactly the calls it started; the file behind the lock
-    exists; and (overlap clause) a landing is always in a file the appender itself opened — the one made at
-    construction or the one of an elected rotation; the directory stays well-formed.
+    it completed followed by the one it is inside are the ones it had completed before plus exactly the calls it
+    started; the file behind the lock exists; (overlap clause) a landing of this lifetime is always in a file this
+    appender opened — the one of its construction or the one of an elected rotation; the lifetime counter does not
+    move and what is left is fit for the next appender.
     Non-vacuity: RollingExamples.every_call_lands_once_example. *)
-Theorem C16_never_lost : forall c pre tick0 t0, 0 <= t0 < TBOUND -> PreOK pre tick0 ->
+Theorem C16_never_lost : forall c sp t0, 0 <= t0 < TBOUND -> GoodFS sp ->
   forall evs, Forall valid_ev evs ->
-  (forall n, stored_in (run c (init c pre tick0 t0) evs) n = landed_in n (lands (run c (init c pre tick0 t0) evs))) /\
-  (forall i, done_by (run c (init c pre tick0 t0) evs) i ++ inflight (run c (init c pre tick0 t0) evs) i =
-             accepted c (init c pre tick0 t0) evs i) /\
-  in_dir (cur (run c (init c pre tick0 t0) evs)) (dir (run c (init c pre tick0 t0) evs)) = true /\
-  (forall l, In l (lands (run c (init c pre tick0 t0) evs)) ->
-             opened c t0 (rots (run c (init c pre tick0 t0) evs)) (l_file l)) /\
-  DirOK (dir (run c (init c pre tick0 t0) evs)) (tick (run c (init c pre tick0 t0) evs)).
+  (forall n, stored_in (run c (restart c sp t0) evs) n = landed_in n (lands (run c (restart c sp t0) evs))) /\
+  (forall i, done_by (run c (restart c sp t0) evs) i ++ inflight (run c (restart c sp t0) evs) i =
+             done_by sp i ++ accepted c (restart c sp t0) evs i) /\
+  in_dir (cur (run c (restart c sp t0) evs)) (dir (run c (restart c sp t0) evs)) = true /\
+  (forall l, In l (lands (run c (restart c sp t0) evs)) -> l_life l = S (life sp) ->
+             opened c t0 (rots (run c (restart c sp t0) evs)) (l_file l)) /\
+  life (run c (restart c sp t0) evs) = S (life sp) /\ GoodFS (run c (restart c sp t0) evs).
 Proof. exact shared_never_lost_full. Qed.
 Print Assumptions C16_never_lost.
 
@@ -156,15 +243,15 @@ Print Assumptions C16_never_lost.
     value; a rotation's reading had reached its boundary and next_date is past it; and a thread that saw the
     boundary reached and attempts the compare_exchange leaves it rotated (by itself or the earlier winner).
     Non-vacuity: RollingExamples.same_boundary_race, cas_elects_example. *)
-Theorem C16_one_rotation_per_boundary : forall c pre tick0 t0, 0 <= t0 < TBOUND ->
+Theorem C16_one_rotation_per_boundary : forall c sp t0, 0 <= t0 < TBOUND ->
   forall evs, Forall valid_ev evs ->
-  NoDup (map from_of (rots (run c (init c pre tick0 t0) evs))) /\
-  (forall i n t, In (i, n, t) (fails (run c (init c pre tick0 t0) evs)) ->
-     exists j u, In (j, n, u) (rots (run c (init c pre tick0 t0) evs))) /\
-  (forall r, In r (rots (run c (init c pre tick0 t0) evs)) ->
-     from_of r <= snd r /\ from_of r < next (run c (init c pre tick0 t0) evs)) /\
-  (forall i t b n g, pcs (run c (init c pre tick0 t0) evs) i = Some (PCas t b n g) ->
-     exists j u, In (j, n, u) (rots (step c (run c (init c pre tick0 t0) evs) (Step i)))).
+  NoDup (map from_of (rots (run c (restart c sp t0) evs))) /\
+  (forall i n t, In (i, n, t) (fails (run c (restart c sp t0) evs)) ->
+     exists j u, In (j, n, u) (rots (run c (restart c sp t0) evs))) /\
+  (forall r, In r (rots (run c (restart c sp t0) evs)) ->
+     from_of r <= snd r /\ from_of r < next (run c (restart c sp t0) evs)) /\
+  (forall i t b n g, pcs (run c (restart c sp t0) evs) i = Some (PCas t b n g) ->
+     exists j u, In (j, n, u) (rots (step c (run c (restart c sp t0) evs) (Step i)))).
 Proof. exact shared_one_rotation_full. Qed.
 Print Assumptions C16_one_rotation_per_boundary.
 
@@ -172,31 +259,33 @@ Print Assumptions C16_one_rotation_per_boundary.
     upon is below next_date; and a thread whose reading is not ahead of such a reading goes straight to the
     read lock — no compare_exchange, no rotation, nothing created or removed.
     Non-vacuity: RollingExamples.backwards_step_example. *)
-Theorem C16_no_rotation_backwards_shared : forall c pre tick0 t0, 0 <= t0 < TBOUND ->
+Theorem C16_no_rotation_backwards_shared : forall c sp t0, 0 <= t0 < TBOUND ->
   forall evs, Forall valid_ev evs ->
-  (rot c = Never -> rots (run c (init c pre tick0 t0) evs) = []) /\
-  (rot c <> Never -> forall u, In u (decided (run c (init c pre tick0 t0) evs)) -> u < next (run c (init c pre tick0 t0) evs)) /\
-  (forall i t b g u, pcs (run c (init c pre tick0 t0) evs) i = Some (PLoad t b g) ->
-     (rot c = Never \/ (In u (decided (run c (init c pre tick0 t0) evs)) /\ t <= u)) ->
-     rots (step c (run c (init c pre tick0 t0) evs) (Step i)) = rots (run c (init c pre tick0 t0) evs) /\
-     fails (step c (run c (init c pre tick0 t0) evs) (Step i)) = fails (run c (init c pre tick0 t0) evs) /\
-     next (step c (run c (init c pre tick0 t0) evs) (Step i)) = next (run c (init c pre tick0 t0) evs) /\
-     cur (step c (run c (init c pre tick0 t0) evs) (Step i)) = cur (run c (init c pre tick0 t0) evs) /\
-     dir (step c (run c (init c pre tick0 t0) evs) (Step i)) = dir (run c (init c pre tick0 t0) evs) /\
-     pcs (step c (run c (init c pre tick0 t0) evs) (Step i)) i = Some (PRead t b g)).
+  (rot c = Never -> rots (run c (restart c sp t0) evs) = []) /\
+  (rot c <> Never -> forall u, In u (decided (run c (restart c sp t0) evs)) -> u < next (run c (restart c sp t0) evs)) /\
+  (forall i t b g u, pcs (run c (restart c sp t0) evs) i = Some (PLoad t b g) ->
+     (rot c = Never \/ (In u (decided (run c (restart c sp t0) evs)) /\ t <= u)) ->
+     rots (step c (run c (restart c sp t0) evs) (Step i)) = rots (run c (restart c sp t0) evs) /\
+     fails (step c (run c (restart c sp t0) evs) (Step i)) = fails (run c (restart c sp t0) evs) /\
+     next (step c (run c (restart c sp t0) evs) (Step i)) = next (run c (restart c sp t0) evs) /\
+     cur (step c (run c (restart c sp t0) evs) (Step i)) = cur (run c (restart c sp t0) evs) /\
+     dir (step c (run c (restart c sp t0) evs) (Step i)) = dir (run c (restart c sp t0) evs) /\
+     pcs (step c (run c (restart c sp t0) evs) (Step i)) i = Some (PRead t b g)).
 Proof. exact shared_no_rotation_backwards_full. Qed.
 Print Assumptions C16_no_rotation_backwards_shared.
 
 (** * Pruning (max_log_files = m >= 1; multi-period jumps and m = 1 are inside the quantifier) *)
 
-(** From the first rotation on, at most [m] of the appender's log files — both interfaces, every history /
-    schedule.  Non-vacuity: RollingExamples.prune_example, prune_max1_example. *)
-Theorem C16_prune : forall c pre tick0 t0, 0 <= t0 < TBOUND -> PreOK pre tick0 ->
+(** From the first completed rotation of a lifetime on, at most [m] of the appender's log files — both interfaces,
+    every history / schedule, and whatever the lifetime started with: also a directory holding more than [m] of
+    its files (a restart in a later period, a lowered limit).
+    Non-vacuity: RollingExamples.prune_example, prune_max1_example, above_limit_example. *)
+Theorem C16_prune : forall c sp t0, 0 <= t0 < TBOUND -> GoodFS sp ->
   forall m, max_files c = Some m -> (1 <= m)%nat ->
-  (forall ws, Forall valid_w ws -> refreshed (run_x c (init c pre tick0 t0) ws) = true ->
-     (count_logs c (dir (run_x c (init c pre tick0 t0) ws)) <= m)%nat) /\
-  (forall evs, Forall valid_ev evs -> refreshed (run c (init c pre tick0 t0) evs) = true ->
-     (count_logs c (dir (run c (init c pre tick0 t0) evs)) <= m)%nat).
+  (forall ws, Forall valid_w ws -> refreshed (run_x c (restart c sp t0) ws) = true ->
+     (count_logs c (dir (run_x c (restart c sp t0) ws)) <= m)%nat) /\
+  (forall evs, Forall valid_ev evs -> refreshed (run c (restart c sp t0) evs) = true ->
+     (count_logs c (dir (run c (restart c sp t0) evs)) <= m)%nat).
 Proof. exact prune_limit_both. Qed.
 Print Assumptions C16_prune.
 
@@ -210,18 +299,53 @@ Theorem C16_prune_oldest_first : forall c s t m, max_files c = Some m -> DirOK (
 Proof. exact refresh_removes_oldest. Qed.
 Print Assumptions C16_prune_oldest_first.
 
-(** ... and the directory is well-formed in every state a rotation can start from (both interfaces). *)
-Theorem C16_directory_wellformed : forall c pre tick0 t0, 0 <= t0 < TBOUND -> PreOK pre tick0 ->
+(** ... EXACTLY: with [len] of its log files present, nothing when [len < m], otherwise the [len - (m-1)] oldest
+    (a permutation of the first [len - (m-1)] in creation order) — no more than needed; they go to the grave, the
+    rest stays, and the only entry a rotation can add is the new period's file.
+    Non-vacuity: RollingExamples.above_limit_example (5 present, limit 2: 4 removed). *)
+Theorem C16_prune_exact : forall c s t m, max_files c = Some m -> (1 <= m)%nat -> DirOK (dir s) (tick s) ->
+  let len := count_logs c (dir s) in
+  let k := if (len <? m)%nat then 0%nat else (len - (m - 1))%nat in
+  Permutation (snd (prune c m (dir s))) (firstn k (sort_by_created (filter (fun f => matches c (fname f)) (dir s)))) /\
+  List.length (snd (prune c m (dir s))) = k /\
+  grave (refresh c s t) = grave s ++ snd (prune c m (dir s)) /\
+  dir (refresh c s t) = fst (create (join_date c t) (fst (prune c m (dir s))) (tick s)) /\
+  count_logs c (fst (prune c m (dir s))) = (len - k)%nat.
+Proof. exact refresh_exact. Qed.
+Print Assumptions C16_prune_exact.
+
+(** An entry that is not one of the appender's own log files is never removed, renamed or written to — byte for byte
+    and stamp for stamp it is still there after any history / schedule of a lifetime (any limit).
+    Non-vacuity: RollingExamples.above_limit_example (notes.txt). *)
+Theorem C16_prune_only_own_files : forall c sp t0, 0 <= t0 < TBOUND -> GoodFS sp ->
+  forall f, In f (dir sp) -> matches c (fname f) = false ->
+  (forall ws, Forall valid_w ws -> In f (dir (run_x c (restart c sp t0) ws))) /\
+  (forall evs, Forall valid_ev evs -> In f (dir (run c (restart c sp t0) evs))).
+Proof. exact foreign_untouched_both. Qed.
+Print Assumptions C16_prune_only_own_files.
+
+(** The directory is well-formed in every state a rotation can start from (both interfaces). *)
+Theorem C16_directory_wellformed : forall c sp t0, 0 <= t0 < TBOUND -> GoodFS sp ->
   (forall ws, Forall valid_w ws ->
-     DirOK (dir (run_x c (init c pre tick0 t0) ws)) (tick (run_x c (init c pre tick0 t0) ws))) /\
+     DirOK (dir (run_x c (restart c sp t0) ws)) (tick (run_x c (restart c sp t0) ws))) /\
   (forall evs, Forall valid_ev evs ->
-     DirOK (dir (run c (init c pre tick0 t0) evs)) (tick (run c (init c pre tick0 t0) evs))).
+     DirOK (dir (run c (restart c sp t0) evs)) (tick (run c (restart c sp t0) evs))).
 Proof. exact dir_ok_both. Qed.
 Print Assumptions C16_directory_wellformed.
 
-(** * The model's switches are the source's (regenerated from rolling.rs on every run) *)
+(** * The model's switches and expressions are the source's (regenerated from rolling.rs / builder.rs on every run) *)
 Theorem C16_source_parameters :
   gen_unrecognised = [] /\ gen_recheck = true /\ gen_rollover_cmp = ">="%string /\
   gen_advance = "compare_exchange"%string /\ gen_prune_guard = "<"%string /\ gen_prune_keep = 1.
 Proof. exact (conj tie_recognised (conj tie_recheck (conj (proj1 tie_control) (conj (proj1 (proj2 (proj2 tie_control))) (conj (proj1 (proj2 (proj2 (proj2 tie_control)))) (proj1 (proj2 (proj2 (proj2 (proj2 tie_control)))))))))). Qed.
 Print Assumptions C16_source_parameters.
+
+Theorem C16_source_expressions :
+  (gen_prune_pred = [("prefix", "not starts_with"); ("suffix", "not ends_with"); ("neither", "Date::parse is_err")]%string /\
+   gen_prune_sort_expr = "sort_by_key by *key of metadata.created()"%string /\
+   gen_prune_count_expr = "take files.len() - (max_files - 1)"%string) /\
+  gen_advance_stored = "compare_exchange(current -> next_date) where next_date = self.rotation.next_date(&now).map(|date| date.unix_timestamp() as usize).unwrap_or(0)"%string /\
+  (gen_builder_defaults = [("rotation", "NEVER"); ("prefix", "None"); ("suffix", "None"); ("max_files", "None")]%string /\
+   gen_builder_setters = [("filename_prefix", "empty is None"); ("filename_suffix", "empty is None"); ("max_log_files", "Some n")]%string).
+Proof. exact (conj tie_prune_expressions (conj tie_advance_stored tie_builder)). Qed.
+Print Assumptions C16_source_expressions.
